@@ -96,6 +96,17 @@ fn parse_item(pis: &[u64], n: usize) -> (Key, Vec<[u8; 32]>, u64) {
     (key, nulls, vol)
 }
 
+/// expiry cut-off encoded in an op: plain nanoseconds, or one of the extreme durations a caller may use as "never"
+fn age_duration(a: u64) -> Duration {
+    match a {
+        u64::MAX => Duration::MAX,
+        x if x == u64::MAX - 1 => Duration::from_secs(u64::MAX),
+        x if x == u64::MAX - 2 => Duration::from_secs(i64::MAX as u64),
+        x if x == u64::MAX - 3 => Duration::from_secs(1 << 40),
+        x => Duration::from_nanos(x),
+    }
+}
+
 pub fn build_catalogue(ctx: &Ctx, n: usize, count: usize) -> Catalogue {
     let mut b = CircuitBuilder::<F, D>::new(CircuitConfig::standard_recursion_config());
     let ts = b.add_virtual_targets(pi_len(n));
@@ -501,8 +512,9 @@ fn run_history(prop: &str, ctx: &Ctx, rep: &Report, cat: &Catalogue, hidx: u64) 
         } else if r < 80 {
             let now = vclock::now_ns();
             let ages: Vec<u64> = m.buckets.values().flat_map(|b| b.proofs.iter().map(|p| now - p.admitted_ns)).collect();
-            let a = if ages.is_empty() || rng.gen_bool(0.2) {
-                *[0u64, 1, u64::MAX / 4].get(rng.gen_range(0..3)).unwrap()
+            let a = if ages.is_empty() || rng.gen_bool(0.25) {
+                // incl. cut-offs that no proof can have reached ("never expire" sentinels, see `age_duration`)
+                *[0u64, 1, u64::MAX / 4, u64::MAX, u64::MAX - 1, u64::MAX - 2, u64::MAX - 3].get(rng.gen_range(0..7)).unwrap()
             } else {
                 let base = ages[rng.gen_range(0..ages.len())];
                 match rng.gen_range(0..3) {
@@ -582,8 +594,9 @@ fn run_history(prop: &str, ctx: &Ctx, rep: &Report, cat: &Catalogue, hidx: u64) 
                 rep.count("op:evict_settled");
             }
             Op::EvictOlder(a) => {
-                let got = pool.evict_older_than(Duration::from_nanos(*a));
-                let want = m.evict(cat, |p| now - p.admitted_ns > *a);
+                let dur = age_duration(*a);
+                let got = pool.evict_older_than(dur);
+                let want = m.evict(cat, |p| ((now - p.admitted_ns) as u128) > dur.as_nanos());
                 if got != want {
                     report("removal", format!("evict_older_than({a} ns) reported {got} evictions, {want} pooled proofs are older"), &trace);
                 }
